@@ -79,6 +79,10 @@ func (p *Playback) Close() {
 	p.srv.Close()
 }
 
+func readAll(res *http.Response) ([]byte, error) {
+	return io.ReadAll(res.Body)
+}
+
 // Span is one entry of a list answer.
 type Span struct {
 	Start    time.Time `json:"start"`
@@ -103,6 +107,24 @@ func (p *Playback) do(u string) (int, []byte, error) {
 		return res.StatusCode, b, nil
 	}
 	return res.StatusCode, b, nil
+}
+
+// GetStatus calls /get and discards the body (the answer may be huge for corrupted input).
+func (p *Playback) GetStatus(start time.Time, dur time.Duration, format string) (int, int64, error) {
+	v := url.Values{}
+	v.Set("path", p.PathName)
+	v.Set("start", start.Format(time.RFC3339Nano))
+	v.Set("duration", strconv.FormatFloat(dur.Seconds(), 'f', -1, 64))
+	if format != "" {
+		v.Set("format", format)
+	}
+	res, err := p.hc.Get("http://unix/get?" + v.Encode())
+	if err != nil {
+		return 0, 0, err
+	}
+	defer res.Body.Close()
+	n, _ := io.Copy(io.Discard, res.Body)
+	return res.StatusCode, n, nil
 }
 
 // List calls /list. A transport error (no answer) is returned as err.
